@@ -283,9 +283,11 @@ pub fn fraccion_renovable_acs_nrb(ep: &EnergyPerformance) -> Result<f32, EpbdErr
     dhw_used_by_cr_no_aux_or_low_scop
         .entry(Carrier::ELECTRICIDAD)
         .and_modify(|e| *e -= dhw_aux_use_an);
+    // Umbral absoluto (0.01 kWh) o relativo a lo descontado, para que el residuo de redondeo
+    // de la resta no dependa del tamaño del edificio
     if dhw_used_by_cr_no_aux_or_low_scop
         .get(&Carrier::ELECTRICIDAD)
-        .map(|v| v.abs() < 0.01)
+        .map(|v| v.abs() < 0.01_f32.max(1e-4 * dhw_aux_use_an))
         .unwrap_or(false)
     {
         dhw_used_by_cr_no_aux_or_low_scop.remove(&ELECTRICIDAD);
@@ -311,7 +313,7 @@ pub fn fraccion_renovable_acs_nrb(ep: &EnergyPerformance) -> Result<f32, EpbdErr
     };
     if dhw_used_by_cr_no_aux_or_low_scop
         .get(&Carrier::EAMBIENTE)
-        .map(|v| v.abs() < 0.01)
+        .map(|v| v.abs() < 0.01_f32.max(1e-4 * dhw_used_low_scop_an))
         .unwrap_or(false)
     {
         dhw_used_by_cr_no_aux_or_low_scop.remove(&EAMBIENTE);
